@@ -9,7 +9,11 @@ use std::panic::{catch_unwind, AssertUnwindSafe};
 use std::sync::atomic::{AtomicBool, AtomicU64, Ordering};
 use std::sync::{Arc, Mutex};
 
-pub const VERIF_DIR: &str = "/verif";
+/// Directory holding known_findings.json, evidence/, replays/ (the current directory: ./check
+/// changes into /verif - or into a snapshot of it - before starting pbcheck).
+pub fn verif_dir() -> String {
+    std::env::current_dir().map(|p| p.display().to_string()).unwrap_or_else(|_| ".".into())
+}
 
 // ---------------------------------------------------------------------------------------------
 // Choice tape
@@ -438,7 +442,7 @@ pub struct KnownFinding {
 }
 
 pub fn load_known_findings() -> Vec<KnownFinding> {
-    let path = format!("{}/known_findings.json", VERIF_DIR);
+    let path = format!("{}/known_findings.json", verif_dir());
     let Ok(text) = std::fs::read_to_string(&path) else {
         return vec![];
     };
@@ -1012,7 +1016,7 @@ impl<'p> Runner<'p> {
             "wall_s": wall_s,
             "violations": self.violations.len(),
         });
-        let dir = format!("{}/evidence", VERIF_DIR);
+        let dir = format!("{}/evidence", verif_dir());
         let _ = std::fs::create_dir_all(&dir);
         let path = format!("{}/{}.json", dir, self.prop.id);
         std::fs::write(&path, serde_json::to_string_pretty(&ev).unwrap() + "\n")
@@ -1061,7 +1065,7 @@ fn minimise_tape(
 }
 
 pub fn write_replay(prop: &str, kind: &str, data: &ReplayData, f: &Failure) -> String {
-    let dir = format!("{}/replays/{}", VERIF_DIR, prop);
+    let dir = format!("{}/replays/{}", verif_dir(), prop);
     let _ = std::fs::create_dir_all(&dir);
     let (dj, h) = match data {
         ReplayData::Tape(t) => (json!({"tape": t}), fingerprint(&(kind, t))),
